@@ -9,7 +9,12 @@
      - gsHexDecodeMap[ch] is one index expression;
      - a call of htmlDecodeByteAt is one tick (like a state function of the tokenizer);
      - TrimLeftFunc is one tick per byte examined;
-     - boolean `||` chains are evaluated left to right with short-circuit, as in Go.
+     - boolean `||` chains are evaluated left to right with short-circuit, as in Go;
+     - when the upper-cased name is not representable (`go_upper_view` = None: the name
+       has a byte >= 0x80 outside the two folding runes) the Go code still compares it
+       with every entry of the lists; no entry can match, and the scans are charged like
+       the scans of an ASCII name that matches nothing (`c_scan_nomatch`), with the
+       length of the NUL-stripped name standing for the length of the upper-cased one.
    Definitions only. *)
 From Coq Require Import List ZArith String Bool.
 From Coq.Strings Require Import Byte.
@@ -34,12 +39,28 @@ Fixpoint c_existsb_eq (u : bytes) (l : list bytes) : cres bool :=
       if (b : bool) then cret true else c_existsb_eq u l'
   end.
 
+(* a linear list scan in which no entry matches a key of length n: one tick plus one
+   comparison (n + 1) per entry *)
+Fixpoint c_scan_nomatch {A} (n : Z) (l : list A) : cres unit :=
+  match l with
+  | [] => cret tt
+  | _ :: l' =>
+      _ <-- tick 1 ;;
+      _ <-- tick (n + 1) ;;
+      c_scan_nomatch n l'
+  end.
+
 Definition c_is_black_tag (s : bytes) : cres bool :=
   if len s <? 3 then cret false
   else
     ou <-- c_upper_without_nulls s ;;
     match ou with
-    | None => cret false
+    | None =>
+        (* the scan of blackTags, then the cases "SVT" and "XSL"; nothing matches *)
+        let r := remove_byte x00 s in
+        _ <-- c_scan_nomatch (len r) black_tags ;;
+        _ <-- c_linear r false ;;
+        c_linear r false
     | Some u =>
         b1 <-- c_existsb_eq u black_tags ;;
         if (b1 : bool) then cret true
@@ -61,7 +82,18 @@ Fixpoint c_assoc_type (u : bytes) (l : list (bytes * Z)) : cres (option Z) :=
 Definition c_is_black_attr (s : bytes) : cres Z :=
   ou <-- c_upper_without_nulls s ;;
   match ou with
-  | None => cret c_attribute_type_none
+  | None =>
+      (* the upper-cased name has a rune outside ASCII, hence at least 2 bytes: the
+         length test does not return.  "XMLNS", "XLINK" and the "ON" prefix test are
+         charged whatever the length is; the scan of blackEvents when the first two bytes
+         upper-case to "ON"; then the scan of blacks.  Nothing matches. *)
+      let r := remove_byte x00 s in
+      _ <-- c_linear r false ;;
+      _ <-- c_linear r false ;;
+      b3 <-- c_linear (firstn 2 r) (to_upper_cmp (bs "ON") (firstn 2 r)) ;;
+      _ <-- (if (b3 : bool) then c_scan_nomatch (len r) black_events else cret tt) ;;
+      _ <-- c_scan_nomatch (len r) blacks ;;
+      cret c_attribute_type_none
   | Some u =>
       let length := len u in
       if length <? 2 then cret c_attribute_type_none
@@ -229,7 +261,10 @@ Definition c_classify (h : h5) (attr : Z) : cres (option bool * Z) :=
                   | Some u =>
                       e1 <-- c_linear u (bytes_eqb u (bs "IMPORT")) ;;
                       if (e1 : bool) then cret true else c_linear u (bytes_eqb u (bs "ENTITY"))
-                  | None => cret false
+                  | None =>
+                      (* both comparisons are made; neither can match *)
+                      let r := remove_byte x00 w in
+                      _ <-- c_linear r false ;; c_linear r false
                   end)
                else cret false) ;;
         if (r2 : bool) then cret (Some true, attr) else cret (None, attr)
